@@ -29,7 +29,7 @@ impl Check for C03 {
         }
     }
     fn rule(&self) -> String {
-        "Neutral-model libraries drawn from the tape (all seven element kinds, every optional-record subset, strings of length 0..400 odd and even — odd ones NUL-padded, even ones unpadded — ASCII or UTF-8, arbitrary i16 dates, in-range reals, properties) are rendered by the independent R-gds encoder in spec BNF order, followed by 0..4096 arbitrary trailing bytes; 1 run in 8 adds one documented-unsupported library-level record (expected outcome: Err). The stream is read by the real reader via from_bytes and via open on a SimSource: fault-free, benign (short reads down to 1 byte, EINTR bursts, chunking) or terminal (EIO before the end of ENDLIB). Non-trivial = >=1 struct and (fault-free or >=1 fault fired); distinct = distinct (model structure digest, tail length, schedule digest).".into()
+        "Neutral-model libraries drawn from the tape (all seven element kinds, every optional-record subset, strings of length 0..400 odd and even — odd ones NUL-padded, even ones unpadded — ASCII or UTF-8, arbitrary i16 dates, in-range reals, properties) are rendered by the independent R-gds encoder in spec BNF order, followed by 0..4096 arbitrary trailing bytes; 1 run in 8 adds one documented-unsupported library-level record (expected outcome: Err). The stream is read by the real reader via from_bytes and via open on a SimSource: fault-free, benign (short reads down to 1 byte, EINTR bursts, chunking; 1 in 4 through a pipe-like source whose seek/stream_position fails with ESPIPE) or terminal (EIO before the end of ENDLIB). Non-trivial = >=1 struct and (fault-free or >=1 fault fired); distinct = distinct (model structure digest, tail length, schedule digest).".into()
     }
     fn assumptions(&self) -> Vec<String> {
         vec!["strings are ASCII or valid UTF-8; STRANS reserved bits are zero; reals are doubles inside the GDSII range".into(), "only record types gds21 documents as valid are emitted (no STRCLASS / TEXTNODE ...)".into(), "whether bytes after ENDLIB are touched is a probe, not an oracle".into()]
@@ -114,7 +114,15 @@ impl Check for C03 {
             fs.put(INP, bytes.clone());
             let pol = match cfg {
                 Cfg::FaultFree => Policy::plain(),
-                Cfg::Benign => benign(&mut io.borrow_mut().ftape),
+                Cfg::Benign => {
+                    let mut p = benign(&mut io.borrow_mut().ftape);
+                    // a pipe-like source (FIFO, /dev/stdin): a conformant stream must still be read; seeking is refused
+                    if !with_extra && io.borrow_mut().ftape.chance(1, 4) {
+                        p.not_seekable = true;
+                        out.probes.hit("source_not_seekable");
+                    }
+                    p
+                }
                 Cfg::Terminal => terminal_read(&mut io.borrow_mut().ftape, endlib_end),
             };
             extra ^= policy_digest(&pol);
